@@ -192,7 +192,7 @@ func atoi(s string) int {
 }
 
 var validSemver = []string{"v0.1.0", "v1.2.3", "v0.25.0-pre.1", "v1.0.0+meta", "v10.20.30"}
-var invalidSemver = []string{"", "1.2.3", "vx", "v1.2.3.4", "latest", "v-1", "v1.2.3 ", "V1.0.0"}
+var invalidSemver = []string{"", "1.2.3", "vx", "v1.2.3.4", "latest", "v-1", "v1.2.3 ", "V1.0.0", "v1.0.0-" + strings.Repeat("界", 30), "v１.０.０"}
 
 // approved reports whether every item of the report is inside the configuration.
 func approved(r *report, cfg *refcfg.Config) (bool, string) {
@@ -373,7 +373,9 @@ func scenarioC12(c *hlib.RunCtx) *hlib.Violation {
 		}
 		switch kind {
 		case 1:
-			r.Week = []string{"", "2024-1-1", "2024-02-30", "../x", "2024-01-01/../../x", "2024-01-01T00:00:00Z", "20240101", "2024-13-01", "week"}[t.Draw(9)]
+			r.Week = []string{"", "2024-1-1", "2024-02-30", "../x", "2024-01-01/../../x", "2024-01-01T00:00:00Z", "20240101", "2024-13-01", "week",
+				// text outside ASCII: long in bytes, short in characters, and digits that are not 0-9
+				strings.Repeat("世", 30), "２０２４-０１-０１", strings.Repeat("é", 45) + "2024-01-01"}[t.Draw(12)]
 			wantValid, why = false, "week "+r.Week
 		case 2:
 			r.Config = invalidSemver[t.Draw(len(invalidSemver))]
@@ -384,7 +386,11 @@ func scenarioC12(c *hlib.RunCtx) *hlib.Violation {
 		case 4: // one unapproved item
 			if len(r.Programs) > 0 {
 				p := r.Programs[t.Draw(len(r.Programs))]
-				switch t.Draw(11) {
+				switch t.Draw(13) {
+				case 11:
+					p.Program += "/" + strings.Repeat("界", 30) // names outside ASCII, long in bytes and short in characters
+				case 12:
+					p.Counters["plain"+strings.Repeat("ü", 40+t.Draw(20))] = 1
 				case 10:
 					// an approved counter's name followed by a newline and more
 					var keys []string
